@@ -55,7 +55,8 @@ def bytesAfter (pre : String) (name : Bytes) : Option Bytes := stripPrefix? (str
 
 /-- Lean twins of the named URL checks in go/bmx/policy.go -/
 def urlPolicyNamed (name : Bytes) : Option UrlPolicy :=
-  if name == strBytes "always" then some fun _ => true
+  if name == strBytes "datauri" then some dataURIImagePolicy
+  else if name == strBytes "always" then some fun _ => true
   else if name == strBytes "never" then some fun _ => false
   else if name == strBytes "noquery" then some fun u => u.rawQuery.isEmpty
   else match bytesAfter "host=" name with
